@@ -128,7 +128,7 @@ def split_cases(ctx, n):
         else:
             s = "".join(r.choice("kCamelCase,SHOUTY_ \t") for _ in range(r.randint(0, 14)))
         got = hg._split_enum_case_values(s)
-        attr = ir_data.Attribute(name=ir_data.Word(text="enum_case"),
+        attr = ir_data.Attribute(name=ir_data.Word(text="enum_case"), back_end=ir_data.Word(text="cpp"),
                                  value=ir_data.AttributeValue(string_constant=ir_data.String(text=s)))
         loc = _some_location()
         attr.value.string_constant.source_location = loc
